@@ -433,6 +433,18 @@ class Interpreter(BaseInterpreter[TContext, TEvent]):
                 # 📬 Wait indefinitely for the next event from the queue.
                 event = await self._event_queue.get()
 
+                # 🛑 `stop()` may have run while this task was parked in
+                #    `get()`: it flips `status` first and only cancels this
+                #    task several awaits later (after stopping the actors), so
+                #    an event that was already queued used to be processed on
+                #    a stopped interpreter - an action could spawn an actor
+                #    after `stop()` had collected the ones to stop, leaving it
+                #    running forever. The loop condition is only re-checked
+                #    between events, so check again here.
+                if self.status != "running":
+                    self._event_queue.task_done()
+                    break
+
                 if self._raise_depth > limit:
                     logger.error(
                         "🛑 Exceeded %d chained self-raised events on '%s'. "
